@@ -22,6 +22,7 @@ DECIDES = (
     "operations/faces (C19.PARTITION); for sketches assembled by merge the core tier holds only faces that are core faces of their "
     "source quarter and the shell tier only shell faces (C19.MERGED-ROLES)."
     " hollow shapes (one tier, sketch without core) have an empty core and all operations in shell (part of C19.PARTITION); get_slice is a pure query - the stack's grids are unchanged and a second call returns the same (part of C19.SLICE-ROLES); a deleted operation stays deleted across clear()/backport() (C19.DELETE-SURVIVES = C12.CLEAR-COMPLETE)."
+    ' Within each grid tier of a literal quad map consecutive faces share an edge - the tier is listed in angular order (C19.TIER-ORDER).'
 )
 NOT_DECIDED = "that index i/j/k is still the geometric column/row/tier after arbitrary user transforms of the entities."
 ASSUMPTIONS = ["np.linspace(a, b, num=n) is modelled as n ordered symbolic coordinates"]
